@@ -15,7 +15,7 @@ Definition stale_risk (valid : list Z) (fr : frame) (p : Z) : Prop :=
 Definition yield_ok (valid : list Z) (fr : frame) (y : ytriple) : Prop :=
   In (ypid y) (f_list fr) /\
   ((dget (ypid y) (f_cache fr) = Some (snd (fst y)) /\ ~ In (ypid y) (f_marked fr))
-   \/ (dget (ypid y) (f_cache fr) = None /\ (f_heap0 fr <= snd (fst y))%nat)) /\
+   \/ (f_heap0 fr <= snd (fst y))%nat) /\
   match f_attrs fr with
   | None => True
   | Some l => attrs_valid valid l = true /\ snd y = Some (spec_keys valid l)
@@ -211,14 +211,14 @@ Section Moves.
       unfold yield_ok. cbn [ypid fst snd]. split; [exact HL|]. split; [left; now split|exact Hi].
   Qed.
 
-  (* a new object is made and yielded *)
-  Lemma J_yield_new pm pid rest Y n i :
-    J valid t fr V pm ((pid, None) :: rest) Y n ->
+  (* a new object is made and yielded (no cache entry, or the cached instance carried the reused flag) *)
+  Lemma J_yield_new pm pid po rest Y n i :
+    J valid t fr V pm ((pid, po) :: rest) Y n ->
     match f_attrs fr with None => True | Some l => attrs_valid valid l = true /\ i = Some (spec_keys valid l) end ->
     J valid t fr V (dset pid n pm) rest ((pid, n, i) :: Y) (S n).
   Proof.
     intros H Hi. destruct (sorted_tail_lt _ _ _ (j_sorted _ _ _ _ _ _ _ _ H)) as [Hs Hlt].
-    destruct (j_rest _ _ _ _ _ _ _ _ H pid None (or_introl eq_refl)) as [HL Hc].
+    destruct (j_rest _ _ _ _ _ _ _ _ H pid po (or_introl eq_refl)) as [HL _].
     pose proof (j_h0 _ _ _ _ _ _ _ _ H) as Hh.
     constructor.
     - exact Hs.
@@ -236,7 +236,7 @@ Section Moves.
     - intros y [Hy|Hy].
       + subst y. cbn [ypid fst snd]. rewrite dget_dset, Z.eqb_refl. reflexivity.
       + rewrite dget_dset.
-        pose proof (j_ylt _ _ _ _ _ _ _ _ H y pid None Hy (or_introl eq_refl)) as Hlt'.
+        pose proof (j_ylt _ _ _ _ _ _ _ _ H y pid po Hy (or_introl eq_refl)) as Hlt'.
         destruct (pid =? ypid y) eqn:E; [apply Z.eqb_eq in E; lia|].
         now apply (j_ypm _ _ _ _ _ _ _ _ H).
     - intros p Hpl. destruct (j_comp _ _ _ _ _ _ _ _ H p Hpl) as [Hy|[[po' Hr]|[Hv|Hst]]].
@@ -250,21 +250,21 @@ Section Moves.
     - lia.
     - exact (ysorted_push _ _ _ _ _ _ _ _ H).
     - constructor; [|apply (j_yok _ _ _ _ _ _ _ _ H)].
-      unfold yield_ok. cbn [ypid fst snd]. split; [exact HL|]. split; [right; now split|exact Hi].
+      unfold yield_ok. cbn [ypid fst snd]. split; [exact HL|]. split; [right; exact Hh|exact Hi].
   Qed.
   (* a new object was made and cached, then as_dict failed for a reason other than NoSuchProcess *)
-  Lemma Jfin_new pm pid rest Y n :
-    J valid t fr V pm ((pid, None) :: rest) Y n -> Jfin valid fr (dset pid n pm) Y.
+  Lemma Jfin_new pm pid po rest Y n :
+    J valid t fr V pm ((pid, po) :: rest) Y n -> Jfin valid fr (dset pid n pm) Y.
   Proof.
     intros H.
-    destruct (j_rest _ _ _ _ _ _ _ _ H pid None (or_introl eq_refl)) as [HL Hc].
+    destruct (j_rest _ _ _ _ _ _ _ _ H pid po (or_introl eq_refl)) as [HL _].
     pose proof (j_h0 _ _ _ _ _ _ _ _ H) as Hh.
     constructor.
     - intros p o Hg. rewrite dget_dset in Hg. destruct (pid =? p) eqn:E.
       + apply Z.eqb_eq in E. subst p. inversion Hg; subst o. split; [exact HL|]. now right.
       + now apply (j_pm _ _ _ _ _ _ _ _ H).
     - intros y Hy. rewrite dget_dset.
-      pose proof (j_ylt _ _ _ _ _ _ _ _ H y pid None Hy (or_introl eq_refl)) as Hlt'.
+      pose proof (j_ylt _ _ _ _ _ _ _ _ H y pid po Hy (or_introl eq_refl)) as Hlt'.
       destruct (pid =? ypid y) eqn:E; [apply Z.eqb_eq in E; lia|].
       now apply (j_ypm _ _ _ _ _ _ _ _ H).
     - apply (j_ysorted _ _ _ _ _ _ _ _ H).
@@ -300,9 +300,12 @@ Proof.
   induction rest as [|[pid po] rest IH]; intros x Y HJ.
   - cbn [gen_loop loop_post]. split; [exact HJ|lia].
   - cbn [gen_loop].
-    destruct po as [o|].
-    + (* cached object *)
-      destruct (j_rest _ _ _ _ _ _ _ _ HJ pid (Some o) (or_introl eq_refl)) as [HL [Hc [Hm Hp]]].
+    destruct (j_rest _ _ _ _ _ _ _ _ HJ pid po (or_introl eq_refl)) as [HL Hpo].
+    destruct (match po with Some o => if o_reused (l_hp x o) then None else Some o | None => None end) as [o|] eqn:Ecached.
+    + (* a cached object without the reused flag *)
+      assert (Epo : po = Some o).
+      { destruct po as [o'|]; [|discriminate]. destruct (o_reused (l_hp x o')); [discriminate|]. now inversion Ecached. }
+      subst po. destruct Hpo as [Hc [Hm Hp]].
       destruct (f_attrs fr) as [l|] eqn:Ea.
       * destruct (as_dict t valid (l_ru x) pid (l_hp x o) l) as [[r ob'] ru'] eqn:Ead.
         destruct r as [keys|e|].
@@ -321,22 +324,21 @@ Proof.
         -- cbn [loop_post]. lia.
       * cbn [loop_post l_pm l_n]. split; [|lia].
         apply J_yield_cached; [exact HJ|]. now rewrite Ea.
-    + (* PID without a cache entry *)
-      destruct (j_rest _ _ _ _ _ _ _ _ HJ pid None (or_introl eq_refl)) as [HL Hc].
+    + (* no cache entry, or a cached instance that carries the reused flag: Process(pid) *)
       destruct (find_proc t pid) as [k|] eqn:Ef.
       * destruct (f_attrs fr) as [l|] eqn:Ea.
         -- cbn [l_ru l_hp l_n l_pm]. unfold upd_heap at 1. rewrite Nat.eqb_refl.
            destruct (as_dict t valid (l_ru x) pid (new_obj pid (k_start k)) l) as [[r ob'] ru'] eqn:Ead.
            destruct r as [keys|e|].
            ++ cbn [loop_post l_pm l_n]. split; [|lia].
-              apply J_yield_new; [exact HJ|]. rewrite Ea. destruct (as_dict_val _ _ _ _ _ _ _ _ _ Ead) as [Hv Hk]; subst keys; now split.
+              apply (J_yield_new _ _ _ _ _ _ po); [exact HJ|]. rewrite Ea. destruct (as_dict_val _ _ _ _ _ _ _ _ _ Ead) as [Hv Hk]; subst keys; now split.
            ++ destruct (as_dict_exc _ _ _ _ _ _ _ _ _ Ead) as [He|[He Hbad]]; subst e.
               ** exfalso. exact (as_dict_fresh _ _ _ _ _ _ _ _ Ef Ead).
-              ** cbn [loop_post l_pm l_n]. split; [exact (Jfin_new _ _ _ _ _ _ _ _ _ HJ)|].
+              ** cbn [loop_post l_pm l_n]. split; [exact (Jfin_new _ _ _ _ _ _ _ _ _ _ HJ)|].
                  split; [lia|]. split; [reflexivity|]. exists l. now split.
            ++ cbn [loop_post l_n]. lia.
         -- cbn [loop_post l_pm l_n]. split; [|lia].
-           apply J_yield_new; [exact HJ|]. now rewrite Ea.
+           apply (J_yield_new _ _ _ _ _ _ po); [exact HJ|]. now rewrite Ea.
       * specialize (IH {| l_pm := ddel pid (l_pm x); l_hp := l_hp x; l_n := l_n x; l_ru := l_ru x |} Y).
         cbn [l_pm l_n] in IH. apply IH.
         apply (J_skip _ _ _ _ _ _ _ _ _ _ HJ). left.
